@@ -99,6 +99,88 @@ structure SameBase (b' b : Book) : Prop where
   base : ∀ j, (b'.nd j).base = (b.nd j).base
   rootpe : ∀ j, (b.nd j).depth = 0 → pe2 (b'.nd j) = pe2 (b.nd j)
 
+/-- the second pass of `updateScores` (path errors), given the state after the first pass -/
+theorem second_pass_spec (b : Book) (r : Nat → Nat) (hwf : WF b) (hr : Ranked b r) (s1 : US) (hI1 : InvUp b s1)
+    (hnm1 : ∀ j, j < b.size → nmOk s1.b j) :
+    SameBase ((sortByDepth s1.b s1.tu).foldl (fun acc n => updPE (b.size + 1) n acc) s1.b) b ∧
+    (∀ j, j < b.size → nmOk ((sortByDepth s1.b s1.tu).foldl (fun acc n => updPE (b.size + 1) n acc) s1.b) j) ∧
+    (∀ j, j < b.size → peOk ((sortByDepth s1.b s1.tu).foldl (fun acc n => updPE (b.size + 1) n acc) s1.b) j) := by
+  -- structure of the intermediate book
+  have hwf1 : WF s1.b := by
+    constructor
+    · intro i hi e he
+      rw [hI1.size] at hi
+      rw [hI1.children i] at he
+      have := hwf.child i hi e he
+      rw [hI1.size, hI1.parents e.2]; exact this
+    · intro i hi e he
+      rw [hI1.size] at hi
+      rw [hI1.parents i] at he
+      have := hwf.parent i hi e he
+      rw [hI1.size, hI1.children e.2]; exact this
+  have hr1 : Ranked s1.b r := by
+    constructor
+    · intro i hi; rw [hI1.size] at hi ⊢; exact hr.bound i hi
+    · intro i hi c hc
+      rw [hI1.size] at hi
+      simp only [childIds, hI1.children i] at hc
+      exact hr.mono i hi c hc
+  -- second pass
+  have hI2 : InvDown s1.b s1.b := ⟨rfl, rfl, rfl, fun _ => rfl, fun _ _ => rfl⟩
+  have hfun2 : (fun acc n => updPE (b.size + 1) n acc) = (fun acc j => run sysDown (b.size + 1) j acc) := by
+    funext acc n; exact updPE_eq_run (b.size + 1) n acc
+  have hdn := run_list_spec (specDown s1.b r hwf1 hr1) (b.size + 1) (sortByDepth s1.b s1.tu) s1.b
+    (by intro j hj
+        rw [mem_sortByDepth] at hj
+        have := hI1.tuValid j hj
+        rw [hI1.size]; exact ⟨this, by omega⟩) hI2
+  rw [hfun2]
+  generalize (sortByDepth s1.b s1.tu).foldl (fun acc j => run sysDown (b.size + 1) j acc) s1.b = b2 at hdn
+  obtain ⟨hI3, hok3, hmono3⟩ := hdn
+  refine ⟨?_, ?_, ?_⟩
+  · refine ⟨by rw [hI3.size, hI1.size], by rw [hI3.pending, hI1.pending], by rw [hI3.costs, hI1.costs], ?_, ?_⟩
+    · intro j
+      have h1 := hI3.skel j
+      have h2 := hI1.skel j
+      have e1 : (b2.nd j).base = ((b2.nd j).noPE).noS3 := rfl
+      have e2 : (b.nd j).base = ((b.nd j).noS3).noPE := rfl
+      have e3 : ((s1.b.nd j).noPE).noS3 = ((s1.b.nd j).noS3).noPE := rfl
+      rw [e1, h1, e3, h2, e2]
+    · intro j h0
+      have hd1 : (s1.b.nd j).depth = (b.nd j).depth := by
+        have := congrArg Node.depth (hI1.skel j); exact this
+      rw [hI3.rootpe j (by rw [hd1]; exact h0)]
+      have := hI1.skel j
+      have hw : (s1.b.nd j).peW = (b.nd j).peW := by have := congrArg Node.peW this; exact this
+      have hb : (s1.b.nd j).peB = (b.nd j).peB := by have := congrArg Node.peB this; exact this
+      simp [pe2, hw, hb]
+  · intro j hj
+    have h1 := hnm1 j hj
+    unfold nmOk at h1 ⊢
+    have hsk := hI3.skel j
+    have hnmj : (b2.nd j).nm = (s1.b.nd j).nm := by have := congrArg Node.nm hsk; exact this
+    have hew : (b2.nd j).ecW = (s1.b.nd j).ecW := by have := congrArg Node.ecW hsk; exact this
+    have heb : (b2.nd j).ecB = (s1.b.nd j).ecB := by have := congrArg Node.ecB hsk; exact this
+    have hsc : scores3 (b2.nd j) = scores3 (s1.b.nd j) := by simp [scores3, hnmj, hew, heb]
+    rw [hsc, ← h1]
+    apply scoresOf_congr
+    · simp [Book.isPending, hI3.pending]
+    · exact hI3.costs
+    · rw [hI3.depth j]
+    · have := congrArg Node.bestMove hsk; exact this
+    · have := congrArg Node.search hsk; exact this
+    · exact hI3.children j
+    · intro c _
+      have hskc := hI3.skel c
+      have a1 : (b2.nd c).nm = (s1.b.nd c).nm := by have := congrArg Node.nm hskc; exact this
+      have a2 : (b2.nd c).ecW = (s1.b.nd c).ecW := by have := congrArg Node.ecW hskc; exact this
+      have a3 : (b2.nd c).ecB = (s1.b.nd c).ecB := by have := congrArg Node.ecB hskc; exact this
+      simp [scores3, a1, a2, a3]
+  · intro j hj
+    rcases hI1.tinv j hj with h | h
+    · exact hmono3 j h
+    · exact hok3 j ((mem_sortByDepth _ _ _).mpr h)
+
 theorem updateScores_spec (b : Book) (start : Nat) (r : Nat → Nat) (hwf : WF b) (hr : Ranked b r)
     (hs : start < b.size)
     (hnm : ∀ j, j < b.size → j ≠ start → j ∉ parentIds (b.nd start) → nmOk b j)
@@ -149,83 +231,10 @@ theorem updateScores_spec (b : Book) (start : Nat) (r : Nat → Nat) (hwf : WF b
     by_cases h2 : j ∈ parentIds (b.nd start)
     · exact hforce1 (by simp [sysUp]) j h2
     · exact hmono1 j (hnm j hj h1 h2)
-  -- structure of the intermediate book
-  have hwf1 : WF s1.b := by
-    constructor
-    · intro i hi e he
-      rw [hI1.size] at hi
-      rw [hI1.children i] at he
-      have := hwf.child i hi e he
-      rw [hI1.size, hI1.parents e.2]; exact this
-    · intro i hi e he
-      rw [hI1.size] at hi
-      rw [hI1.parents i] at he
-      have := hwf.parent i hi e he
-      rw [hI1.size, hI1.children e.2]; exact this
-  have hr1 : Ranked s1.b r := by
-    constructor
-    · intro i hi; rw [hI1.size] at hi ⊢; exact hr.bound i hi
-    · intro i hi c hc
-      rw [hI1.size] at hi
-      simp only [childIds, hI1.children i] at hc
-      exact hr.mono i hi c hc
-  -- second pass
-  have hI2 : InvDown s1.b s1.b := ⟨rfl, rfl, rfl, fun _ => rfl, fun _ _ => rfl⟩
-  have hfun2 : (fun acc n => updPE (b.size + 1) n acc) = (fun acc j => run sysDown (b.size + 1) j acc) := by
-    funext acc n; exact updPE_eq_run (b.size + 1) n acc
-  have hdn := run_list_spec (specDown s1.b r hwf1 hr1) (b.size + 1) (sortByDepth s1.b s1.tu) s1.b
-    (by intro j hj
-        rw [mem_sortByDepth] at hj
-        have := hI1.tuValid j hj
-        rw [hI1.size]; exact ⟨this, by omega⟩) hI2
-  have hres : updateScores true b start = (sortByDepth s1.b s1.tu).foldl (fun acc j => run sysDown (b.size + 1) j acc) s1.b := by
-    simp only [updateScores, hfun2]
+  have h2 := second_pass_spec b r hwf hr s1 hI1 hnm1
+  have hres : updateScores true b start = (sortByDepth s1.b s1.tu).foldl (fun acc n => updPE (b.size + 1) n acc) s1.b := by
+    simp only [updateScores]
     rw [show ({ b := b, tu := [start] } : US) = s0 from rfl, hs1]
-  rw [hres]
-  generalize (sortByDepth s1.b s1.tu).foldl (fun acc j => run sysDown (b.size + 1) j acc) s1.b = b2 at hdn
-  obtain ⟨hI3, hok3, hmono3⟩ := hdn
-  refine ⟨?_, ?_, ?_⟩
-  · refine ⟨by rw [hI3.size, hI1.size], by rw [hI3.pending, hI1.pending], by rw [hI3.costs, hI1.costs], ?_, ?_⟩
-    · intro j
-      have h1 := hI3.skel j
-      have h2 := hI1.skel j
-      have e1 : (b2.nd j).base = ((b2.nd j).noPE).noS3 := rfl
-      have e2 : (b.nd j).base = ((b.nd j).noS3).noPE := rfl
-      have e3 : ((s1.b.nd j).noPE).noS3 = ((s1.b.nd j).noS3).noPE := rfl
-      rw [e1, h1, e3, h2, e2]
-    · intro j h0
-      have hd1 : (s1.b.nd j).depth = (b.nd j).depth := by
-        have := congrArg Node.depth (hI1.skel j); exact this
-      rw [hI3.rootpe j (by rw [hd1]; exact h0)]
-      have := hI1.skel j
-      have hw : (s1.b.nd j).peW = (b.nd j).peW := by have := congrArg Node.peW this; exact this
-      have hb : (s1.b.nd j).peB = (b.nd j).peB := by have := congrArg Node.peB this; exact this
-      simp [pe2, hw, hb]
-  · intro j hj
-    have h1 := hnm1 j hj
-    unfold nmOk at h1 ⊢
-    have hsk := hI3.skel j
-    have hnmj : (b2.nd j).nm = (s1.b.nd j).nm := by have := congrArg Node.nm hsk; exact this
-    have hew : (b2.nd j).ecW = (s1.b.nd j).ecW := by have := congrArg Node.ecW hsk; exact this
-    have heb : (b2.nd j).ecB = (s1.b.nd j).ecB := by have := congrArg Node.ecB hsk; exact this
-    have hsc : scores3 (b2.nd j) = scores3 (s1.b.nd j) := by simp [scores3, hnmj, hew, heb]
-    rw [hsc, ← h1]
-    apply scoresOf_congr
-    · simp [Book.isPending, hI3.pending]
-    · exact hI3.costs
-    · rw [hI3.depth j]
-    · have := congrArg Node.bestMove hsk; exact this
-    · have := congrArg Node.search hsk; exact this
-    · exact hI3.children j
-    · intro c _
-      have hskc := hI3.skel c
-      have a1 : (b2.nd c).nm = (s1.b.nd c).nm := by have := congrArg Node.nm hskc; exact this
-      have a2 : (b2.nd c).ecW = (s1.b.nd c).ecW := by have := congrArg Node.ecW hskc; exact this
-      have a3 : (b2.nd c).ecB = (s1.b.nd c).ecB := by have := congrArg Node.ecB hskc; exact this
-      simp [scores3, a1, a2, a3]
-  · intro j hj
-    rcases hI1.tinv j hj with h | h
-    · exact hmono3 j h
-    · exact hok3 j ((mem_sortByDepth _ _ _).mpr h)
+  rw [hres]; exact h2
 
 end Bk
